@@ -723,7 +723,15 @@ def _download_from_resources(
         # valid cache entry.
         temporary_filepath = f"{cache_miss.filepath}.{uuid.uuid4().hex}.part"
         try:
-            cache_miss.download_function(cache_miss.uri, temporary_filepath)
+            success = cache_miss.download_function(cache_miss.uri, temporary_filepath)
+            if success is False:
+                # The resource protocol is "return True on success": a download
+                # function that reports failure this way must not have its
+                # (possibly partial) file moved into the cache.
+                raise IOError(
+                    f"Download of {cache_miss.uri} failed: the download "
+                    f"function returned False."
+                )
             cache_miss.post_process_function(temporary_filepath)
             os.replace(temporary_filepath, cache_miss.filepath)
             return True
